@@ -16,6 +16,7 @@ from . import scenario as S
 
 LEVEL = 'exploration'
 LONG = 90 * 86400
+STORM = 15000
 
 
 def run_case(case):
@@ -36,7 +37,8 @@ def run_case(case):
         def cfg(d, ca):
             with open(d + '/hookplan.json', 'w') as f:
                 json.dump(hp, f)
-            c = S.std_config(d, ca, certs, accounts=[{'name': a, 'contacts': contacts, 'key_type': key_type} for a in accs], ca_names=cas,
+            # every account has its own contact addresses: a newAccount request names the configured account it is for
+            c = S.std_config(d, ca, certs, accounts=[{'name': a, 'contacts': [x.replace('@', '+%s@' % a) for x in contacts], 'key_type': key_type} for a in accs], ca_names=cas,
                              hook_plan=d + '/hookplan.json')
             return c
         return cfg
@@ -46,7 +48,8 @@ def run_case(case):
             succ = {}
             for h in S.successes(hooks):
                 succ[h['cert']] = succ.get(h['cert'], 0) + 1
-            return all(succ.get(c['name'], 0) >= k for c in certs)
+            # a request storm (an attempt re-sending one request for ever) is cut short: judged below
+            return all(succ.get(c['name'], 0) >= k for c in certs) or len(log) > STORM
         return stop
 
     def rm_certs(d, ca):
@@ -64,6 +67,12 @@ def run_case(case):
     if case['variant'] == 'forget':
         phases.append({'cfg': mk_cfg(['a@example.org'], 'ecdsa_p256'), 'before': forget_all, 'stop': all_done(1), 'timeout': 120, 'workers': case['workers'],
                        'plan': {'default': dict(ca_cfg, lifetimes_s=[LONG])}})
+    elif case['variant'] == 'forget-twice':
+        # the CA forgets an account at the moment an order signed for it arrives, several times over: the accounts re-created by one
+        # certificate are unknown again when its siblings (or itself) come back
+        phases.append({'cfg': mk_cfg(['a@example.org'], 'ecdsa_p256'), 'before': rm_certs, 'stop': all_done(1), 'timeout': 120, 'workers': case['workers'],
+                       'plan': {'default': dict(ca_cfg, lifetimes_s=[LONG]),
+                                'faults': [{'kind': 'newOrder', 'action': 'forget_account', 'known_account': True, 'max_fires': case.get('forgets', 2), 'id': 'forget-at-order'}]}})
     elif case['variant'] == 'contacts':
         phases.append({'cfg': mk_cfg(['b@example.org', 'c@example.org'], 'ecdsa_p256'), 'before': rm_certs, 'stop': all_done(1), 'timeout': 120, 'workers': case['workers'],
                        'plan': {'default': dict(ca_cfg, lifetimes_s=[LONG])}})
@@ -79,7 +88,7 @@ def run_case(case):
             hooks, log = S.phase_slice(run, pi)
             if ph['rc'] is not None:
                 pb.append(('daemon-died', 'phase %d: the daemon ended by itself (status %s): %s' % (pi, ph['rc'], ph['stderr'][-200:])))
-            if ph['timed_out']:
+            if ph['timed_out'] or len(log) > STORM:
                 succ = {}
                 for h in S.successes(hooks):
                     succ[h['cert']] = succ.get(h['cert'], 0) + 1
@@ -88,31 +97,48 @@ def run_case(case):
                 last = max([r['t_recv'] for r in log if 't_recv' in r] + [h['t_end'] for h in hooks] + [0])
                 import time
                 idle = time.monotonic() - last / 1e9 if last else None
-                pb.append(('not-terminated', 'phase %d (%s): after %.0f s the renewals of %s have not ended; last event %.0f s before the stop; open requests answered: all' % (
-                    pi, case['variant'] if pi else 'first-registration', ph['wall'], missing, idle or -1)))
+                if ph['timed_out']:
+                    pb.append(('not-terminated', 'phase %d (%s): after %.0f s the renewals of %s have not ended; last event %.0f s before the stop; open requests answered: all' % (
+                        pi, case['variant'] if pi else 'first-registration', ph['wall'], missing, idle or -1)))
+                elif missing:
+                    kinds = {}
+                    for r in log:
+                        kinds[(r.get('cert'), r.get('kind'))] = kinds.get((r.get('cert'), r.get('kind')), 0) + 1
+                    top = max(kinds.items(), key=lambda kv: kv[1])
+                    pb.append(('not-terminated', 'phase %d (%s): %d requests in %.0f s and the renewals of %s have not ended: %s sent %d times for %s' % (
+                        pi, case['variant'], len(log), ph['wall'], missing, top[0][1], top[1], top[0][0])))
         res['attempts'] = len([h for h in run.hooks if C.hook_event(h) == 'post-operation'])
         # registrations
-        by_key = {}
+        def acc_name_of(r):
+            # the configured account a newAccount request is for: its contact addresses carry the account name
+            try:
+                cs = json.loads(r.get('payload') or '{}').get('contact') or []
+            except ValueError:
+                cs = []
+            for c in cs:
+                if '+' in c and '@' in c:
+                    return c.split('+', 1)[1].split('@', 1)[0]
+            return r.get('jwk_thumb')
+        by_acc = {}
+        acc_of_url = {}
         for r in run.ca_log:
-            if r.get('kind') == 'newAccount' and r.get('tx', 0) == 0 and r.get('jwk_thumb'):
-                by_key.setdefault((r['ca'], r['jwk_thumb']), []).append(r)
+            if r.get('kind') == 'newAccount' and r.get('jwk_thumb'):
+                if r.get('tx', 0) == 0:
+                    by_acc.setdefault((r['ca'], acc_name_of(r)), []).append(r)
+                if r.get('location'):
+                    acc_of_url[r['location']] = acc_name_of(r)
         unknown = {}
-        acc_thumb = {}
-        for r in run.ca_log:
-            ex = r.get('extra') or {}
-            if r.get('kind') == 'newAccount' and r.get('location'):
-                acc_thumb[r['location']] = r.get('jwk_thumb')
         for r in run.ca_log:
             if r.get('status') == 400 and 'accountDoesNotExist' in (r.get('resp_body') or ''):
                 kid = (r.get('protected') or {}).get('kid')
-                t = acc_thumb.get(kid)
+                t = acc_of_url.get(kid)
                 unknown[(r['ca'], t)] = unknown.get((r['ca'], t), 0) + 1
-        for (ca_name, thumb), regs in by_key.items():
-            allowed = 1 + unknown.get((ca_name, thumb), 0)
+        for (ca_name, acc), regs in by_acc.items():
+            allowed = 1 + unknown.get((ca_name, acc), 0)
             created = [r for r in regs if (r.get('extra') or {}).get('account_created')]
             if len(regs) > allowed:
-                pb.append(('double-register', 'account key %s… sent %d newAccount requests to %s (%d created an account) but the CA reported it unknown only %d time(s)' % (
-                    thumb[:10], len(regs), ca_name, len(created), allowed - 1)))
+                pb.append(('double-register', 'account %s sent %d newAccount requests to %s (%d created an account, %d distinct keys) but the CA reported it unknown only %d time(s)' % (
+                    acc, len(regs), ca_name, len(created), len({r['jwk_thumb'] for r in regs}), allowed - 1)))
             res.setdefault('registrations', []).append((ca_name, len(regs), allowed))
         # one update per changed item and endpoint
         if case['variant'] in ('contacts', 'key') and len(run.phases) > 1:
@@ -172,7 +198,14 @@ def gen(tier, r):
         r.shuffle(ca_of)
         cases.append({'i': i, 'n': n, 'n_accs': n_accs, 'n_cas': n_cas, 'acc_of': acc_of, 'ca_of': ca_of,
                       'workers': [1, 2, 4, 16][i % 4], 'max_delay': r.choice([0, 10, 30, 50]), 'hook_hold': r.choice([0, 2, 10, 25]),
-                      'variant': ['first', 'forget', 'contacts', 'key'][i % 4], 'rounds': 2, 'nonce_on_get': bool(i % 3)})
+                      'variant': ['first', 'forget', 'contacts', 'key', 'forget-twice', 'key', 'forget-twice', 'contacts'][i % 8], 'rounds': 2, 'nonce_on_get': bool(i % 3),
+                      'forgets': r.randint(2, 4)})
+        if cases[-1]['variant'] == 'forget-twice' and i % 16 == 4:
+            # several certificates on one account and one endpoint
+            cases[-1].update(n_accs=1, n_cas=1, acc_of=[0] * n, ca_of=[0] * n)
+        if cases[-1]['variant'] == 'key' and i % 8 == 5:
+            # one account used on every endpoint: its key roll-over reaches the endpoints one after the other
+            cases[-1].update(n_accs=1, acc_of=[0] * n, n_cas=max(2, n_cas), ca_of=[k % max(2, n_cas) for k in range(n)])
     return cases
 
 
@@ -211,7 +244,7 @@ def run(tier):
     chk.notes['sharing_patterns'] = len(patterns)
     chk.rule = ('2-8 certificates over 1-3 accounts and 1-3 endpoints (random surjective sharing maps), two rounds of renewals all due at once, '
                 'per-response delays 0-50 ms, hook delays, TOKIO_WORKER_THREADS in {1,2,4,16}; variants: first registration only, CA forgets every '
-                'account, contacts changed, key type changed; distinct = distinct per-CA sequences of (certificate, request kind) observed')
+                'account, accounts forgotten again while orders arrive, contacts changed, key type changed; distinct = distinct per-CA sequences of (certificate, request kind) observed')
     chk.assumptions = ['acmed polls all renewals on one thread: interleavings arise at await points and are moved by the injected delays',
                        'deadlock = renewals not ended within 120-150 s while a round normally takes a few seconds']
     code = chk.finish()
